@@ -94,6 +94,8 @@ class H:
                 raise Unsupported("empty expression")
             h = head(form)
             m = getattr(self, "f_" + _pyname(h), None) if h is not None else None
+            if h == ".":
+                m = self.f_dot
             if m is not None:
                 return m(form, *form[1:])
             if h in BINOPS:
@@ -106,9 +108,7 @@ class H:
         raise Unsupported(f"hysem: form {type(form).__name__}")
 
     def hyname(self):
-        k = self.c.occ(("load", "hy"))
-        self.c.event("load", "hy", k)
-        return ("var", "hy", k)
+        return self.c.load_user("hy")
 
     def symbol(self, s):
         n = str(s)
@@ -122,10 +122,7 @@ class H:
                 raise Abrupt("raise", ("exc", "NameError", n))
             return v
         from hy.reader import mangle
-        n = mangle(n)
-        k = self.c.occ(("load", n))
-        self.c.event("load", n, k)
-        return ("var", n, k)
+        return self.c.load_user(mangle(n))
 
     # ---- argument segments (angelic partial order)
     def seg(self):
@@ -178,6 +175,22 @@ class H:
         return (fv, tuple(pos), tuple(kws))
 
     def call(self, form):
+        if len(form) == 1 and isinstance(form[0], Expression) and head(form[0]) == "fn":
+            clo = self.eval(form[0])
+            saved = self.env
+            self.env = clo[3]
+            try:
+                return self.body(clo[2])
+            except Abrupt as a:
+                if a.kind == "return":
+                    return a.val
+                raise
+            finally:
+                self.env = saved
+        f0 = form[0]
+        if (isinstance(f0, Expression) and len(f0) >= 2 and isinstance(f0[0], Symbol) and not str(f0[0]).strip(".")
+                and f0[1] == Symbol("None")):
+            return self.method_call(form)
         slots = self.call_slots(form[1:])
         sg = Seg(self)
         hf = sg.child(form[0])
@@ -219,22 +232,72 @@ class H:
         return self.c.op(("unary", "Invert"), self.eval(x))
 
     def f_get(self, form, obj, *idx):
-        vals = self.args([obj, *idx])
-        v = vals[0]
-        for i in vals[1:]:
-            v = self.c.op(("subscript",), v, i)
-        return v
+        sg = Seg(self)
+        acc = sg.child(obj)
+        for i in idx:
+            hi = sg.child(i)
+            acc = sg.op(("subscript",), (lambda acc, hi: lambda r: (r(acc), r(hi)))(acc, hi), [acc, hi])
+        sg.run()
+        return sg.value(acc)
 
     def f_cut(self, form, obj, *rest):
         rest = list(rest)
         if len(rest) == 1:
             rest = [None, rest[0]]
         rest += [None] * (3 - len(rest))
-        present = [obj] + [r for r in rest if r is not None]
-        vals = self.args(present)
-        o, it = vals[0], iter(vals[1:])
-        parts = tuple(next(it) if r is not None else NONE for r in rest)
-        return self.c.op(("subscript",), o, ("slice",) + parts)
+        sg = Seg(self)
+        ho = sg.child(obj)
+        hs = [sg.child(r) if r is not None else None for r in rest]
+        hc = sg.op(("subscript",), lambda r: (r(ho), ("slice",) + tuple(r(h) if h is not None else NONE for h in hs)),
+                   [ho] + [h for h in hs if h is not None])
+        sg.run()
+        return sg.value(hc)
+
+    def dot_chain(self, sg, acc, keys):
+        from hy.reader import mangle
+        for key in keys:
+            if isinstance(key, Symbol):
+                acc = sg.op(("attr", mangle(str(key))), (lambda acc: lambda r: (r(acc),))(acc), [acc])
+            elif isinstance(key, Expression):
+                m = sg.op(("attr", mangle(str(key[0]))), (lambda acc: lambda r: (r(acc),))(acc), [acc])
+                slots = self.call_slots(key[1:])
+                hs = [sg.child(f) for _, _, f in slots]
+                acc = sg.op(("call",), (lambda m, slots, hs: lambda r: self.call_value(r(m), slots, [r(h) for h in hs]))(m, slots, hs),
+                            [m] + hs)
+            elif isinstance(key, List):
+                hi = sg.child(key[0])
+                acc = sg.op(("subscript",), (lambda acc, hi: lambda r: (r(acc), r(hi)))(acc, hi), [acc, hi])
+            else:
+                raise Unsupported("hysem: `.` key")
+        return acc
+
+    def f_dot(self, form, obj, *keys):
+        sg = Seg(self)
+        acc = self.dot_chain(sg, sg.child(obj), keys)
+        sg.run()
+        return sg.value(acc)
+
+    def method_call(self, form):
+        """((. None m1 m2) obj args...) == ((. obj m1 m2) args...): the object is the first plain argument."""
+        root, rest = form[0], list(form[1:])
+        i = 0
+        while i < len(rest):
+            if isinstance(rest[i], Keyword):
+                if i == 0 and len(rest) == 1:
+                    break
+                i += 2
+            elif isinstance(rest[i], Expression) and head(rest[i]) == "unpack-mapping":
+                i += 1
+            else:
+                break
+        obj = rest.pop(i)
+        sg = Seg(self)
+        f = self.dot_chain(sg, sg.child(obj), list(root[2:]))
+        slots = self.call_slots(rest)
+        hs = [sg.child(x) for _, _, x in slots]
+        hc = sg.op(("call",), lambda r: self.call_value(r(f), slots, [r(h) for h in hs]), [f] + hs)
+        sg.run()
+        return sg.value(hc)
 
     # ---- control
     def f_do(self, form, *body):
@@ -242,6 +305,26 @@ class H:
 
     def f_if(self, form, t, a, b):
         return self.eval(a) if self.c.truthy(self.eval(t)) else self.eval(b)
+
+    def f_cond(self, form, *args):
+        # docs: (cond c1 r1 c2 r2) == (if c1 r1 (if c2 r2 None)); no arguments -> None
+        args = list(args)
+        if len(args) % 2:
+            raise Unsupported("odd cond")
+        for i in range(0, len(args), 2):
+            if self.c.truthy(self.eval(args[i])):
+                return self.eval(args[i + 1])
+        return NONE
+
+    def f_when(self, form, test, *body):
+        # docs: (when test body...) == (if test (do body...) None)
+        return self.body(body) if self.c.truthy(self.eval(test)) else NONE
+
+    def f_fn(self, form, params, *body):
+        if not isinstance(params, List) or len(params):
+            raise Unsupported("hysem: fn with parameters")
+        k = self.c.occ(("fn",))
+        return ("hyclosure", k, tuple(body), self.env)
 
     def f_and(self, form, *ops):
         return self.shortcircuit(ops, True)
@@ -282,6 +365,68 @@ class H:
                 if a.kind != "continue":
                     raise
 
+    def f_for(self, form, clauses, *rest):
+        from hv.pysem import for_loop as _unused  # noqa: F401  (same event vocabulary)
+        rest = list(rest)
+        orelse = None
+        if rest and isinstance(rest[-1], Expression) and head(rest[-1]) == "else":
+            orelse = list(rest.pop()[1:])
+        cl = parse_clauses(list(clauses))
+        first_for = [True]
+
+        def run(i):
+            if i == len(cl):
+                self.body(rest)
+                return
+            kind, a, b = cl[i]
+            if kind == "for":
+                itv = self.eval(b)
+                is_outer = first_for[0]
+                first_for[0] = False
+                self.loop(itv, a, lambda: run(i + 1), (lambda: self.body(orelse)) if (orelse is not None and is_outer) else None)
+            elif kind == "if":
+                if self.c.truthy(self.eval(a)):
+                    run(i + 1)
+            elif kind == "do":
+                self.eval(a)
+                run(i + 1)
+            elif kind == "setv":
+                self.assign(a, self.eval(b))
+                run(i + 1)
+        if not any(k == "for" for k, _, _ in cl):
+            raise Unsupported("for without iteration clause")
+        run(0)
+        return NONE
+
+    def loop(self, itv, target, body, orelse, comp=False):
+        c = self.c
+        k = c.occ(("iter",))
+        c.event("iter", itv, k)
+        if not comp and c.may_raise(("iter", itv, k)):
+            raise Abrupt("raise", ("exc", "iter", itv, k))
+        it = ("iterator", itv, k)
+        n = 0
+        while True:
+            c.event("next", it, n)
+            r = c.o.choose(("next", it, n), 2 if comp else 3)
+            if r == 2:
+                raise Abrupt("raise", ("exc", "next", it, n))
+            if r == 0:
+                break
+            if n >= c.MAX_ITERS:
+                raise Abrupt("cut", ("loop",))
+            self.assign(target, ("item", it, n))
+            n += 1
+            try:
+                body()
+            except Abrupt as a:
+                if a.kind == "break":
+                    return
+                if a.kind != "continue":
+                    raise
+        if orelse is not None:
+            orelse()
+
     def f_break(self, form):
         raise Abrupt("break")
 
@@ -295,10 +440,17 @@ class H:
         c = self.c
         xs = list(xs)
         exc = cause = None
+        fe = fc = None
         if xs and not (isinstance(xs[0], Keyword) and str(xs[0]) == ":from"):
-            exc = self.eval(xs.pop(0))
+            fe = xs.pop(0)
         if xs:
-            cause = self.eval(xs[1])
+            fc = xs[1]
+        # the exception and its cause are sibling children of one form: unspecified relative order
+        vals = self.args([f for f in (fe, fc) if f is not None])
+        if fe is not None:
+            exc = vals.pop(0)
+        if fc is not None:
+            cause = vals.pop(0)
         if exc is None:
             c.event("reraise")
             raise Abrupt("raise", c.cur_exc if c.cur_exc is not None else ("exc", "RuntimeError", "no active exception"))
@@ -315,7 +467,7 @@ class H:
                 e.vars[n] = v
                 return
             from hy.reader import mangle
-            c.event("store", mangle(n), v)
+            c.store_user(mangle(n), v)
         elif isinstance(target, Tok):
             # an arbitrary assignable place (attribute, subscript ...): evaluated, then stored into
             c.event("store-into", target.name, v)
@@ -323,6 +475,13 @@ class H:
             for i, x in enumerate(target):
                 starred = isinstance(x, Expression) and head(x) == "unpack-iterable"
                 self.assign(x[1] if starred else x, ("unpacked", v, i, starred))
+        elif isinstance(target, Expression) and head(target) == "." and len(target) == 3 and isinstance(target[2], Symbol):
+            from hy.reader import mangle
+            o = self.eval(target[1])
+            c.event("setattr", o, mangle(str(target[2])), v)
+        elif isinstance(target, Expression) and head(target) == "get" and len(target) == 3:
+            o, i = self.args([target[1], target[2]])
+            c.event("setitem", o, i, v)
         else:
             raise Unsupported("hysem: assignment target " + type(target).__name__)
 
@@ -398,11 +557,19 @@ class H:
             v = self.body(body)
         except Abrupt as ab:
             a = ab
-        was_raise = a is not None and a.kind == "raise"
+        body_raised = a is not None and a.kind == "raise"
+        n_before = sum(1 for e in c.trace if e[0] == "exit" and e[2] is not None)
         a = do_exits(c, entered, a)
         if a is not None:
             raise a
-        return NONE if was_raise else v
+        if body_raised:
+            return NONE          # "unless it suppresses an exception ... in which case it returns None"
+        exit_raised = sum(1 for e in c.trace if e[0] == "exit" and e[2] is not None) > n_before
+        if exit_raised:
+            # the body completed, an inner __exit__ raised and an outer manager suppressed that: the docs do not
+            # say whether the body's value or None results; either is accepted
+            return ("oneof", (v, NONE))
+        return v
 
     # ---- try
     def f_try(self, form, *parts):
@@ -483,6 +650,26 @@ class H:
 _DELETED = ("deleted",)
 
 
+def parse_clauses(cl):
+    """[x xs :if c :setv y v :do f :async z zs] -> [(kind, a, b)]"""
+    out, i = [], 0
+    while i < len(cl):
+        x = cl[i]
+        if isinstance(x, Keyword) and str(x) in (":if", ":do"):
+            out.append((str(x)[1:], cl[i + 1], None))
+            i += 2
+        elif isinstance(x, Keyword) and str(x) == ":setv":
+            out.append(("setv", cl[i + 1], cl[i + 2]))
+            i += 3
+        elif isinstance(x, Keyword) and str(x) == ":async":
+            out.append(("for", cl[i + 1], cl[i + 2]))
+            i += 3
+        else:
+            out.append(("for", cl[i], cl[i + 1]))
+            i += 2
+    return out
+
+
 class Seg:
     """A segment of sibling evaluations whose relative order Hy leaves unspecified (docs/semantics.rst,
     "Order of evaluation"): a partial order of tasks.  Each child contributes its own atoms in order; an
@@ -513,7 +700,8 @@ class Seg:
             return val
         if isinstance(f, Symbol) and str(f) not in ("None", "True", "False") and h.env.find(str(f)) is None:
             from hy.reader import mangle
-            return self._add(("load", mangle(str(f))), lambda r: h.symbol(f), [])
+            if mangle(str(f)) not in c.uservals:
+                return self._add(("load", mangle(str(f))), lambda r: h.symbol(f), [])
         return self._add(None, lambda r: h.eval(f), [])
 
     def op(self, desc, argfn, deps):
@@ -550,7 +738,7 @@ class Seg:
 
 
 def _pyname(h):
-    return {"do": "do", "if": "if", "and": "and", "or": "or", "not": "not", "bnot": "bnot", "get": "get", "cut": "cut",
+    return {"cond": "cond", "when": "when", "fn": "fn", "for": "for", "do": "do", "if": "if", "and": "and", "or": "or", "not": "not", "bnot": "bnot", "get": "get", "cut": "cut",
             "while": "while", "break": "break", "continue": "continue", "return": "return", "raise": "raise",
             "setv": "setv", "setx": "setx", "let": "let", "with": "with", "try": "try"}.get(h, "\0none")
 
